@@ -266,6 +266,16 @@ def run_case(case):
                     cnt["redefinitions_checked"] = 1
                     if st3.is_stored("_sup", tgt):
                         add("stale-superrun", f"after redefining _sup as {order[:-1]} the data stored for {order} is still reported available")
+                # same run ids, but only a time range of the first run
+                st4 = context(case, d)
+                a0, b0 = case["ext"][order[0]]
+                spec = {r: "all" for r in order}
+                spec[order[0]] = [a0, a0 + max(1, (b0 - a0) // 2)]
+                st4.define_run("_sup", spec)
+                cnt["redefinitions_checked"] = cnt.get("redefinitions_checked", 0) + 1
+                if st4.is_stored("_sup", tgt):
+                    add("stale-superrun", f"after redefining _sup with a time range for run {order[0]} ({spec[order[0]]}) the data "
+                                          f"stored for the full runs is still reported available", redefinition="time_range")
             else:
                 add("not-stored", f"write_superruns is on but {tgt} of _sup is not stored after the request")
     finally:
